@@ -16,8 +16,11 @@ from .src import AnalysisError
 
 
 class Opaque:
-    def __init__(self, text: str):
+    """A value the rule does not interpret.  `parts` keeps how it was made: ("Sub", a, b) / ("call", name, args, kwargs)."""
+
+    def __init__(self, text: str, parts: Optional[tuple] = None):
         self.text = text
+        self.parts = parts
 
     def __repr__(self):
         return f"<{self.text}>"
@@ -96,6 +99,7 @@ class Machine:
         undecided(test text) -> the branch to take for a test the model cannot decide, or None (-> Undecidable)."""
         self.env = dict(env)
         self.attrs, self.call_hook, self.fuel, self.undecided = attrs, call, fuel, undecided
+        self.stores: List[tuple] = []
 
     # -- expressions ------------------------------------------------------------------------------------------------------
     def ev(self, e) -> Any:
@@ -172,6 +176,10 @@ class Machine:
                 return base[idx]
             if isinstance(base, (tuple, list)) and isinstance(idx, int) and -len(base) <= idx < len(base):
                 return base[idx]
+            if isinstance(base, Opaque) and idx is not None:
+                text = f"{base.text}[{render(idx)}]"
+                v = self.attrs(text)
+                return Opaque(text, ("index", base, idx)) if v is NotImplemented else v
             return Opaque(ast.unparse(e))
         if isinstance(e, ast.Call):
             return self.call(e)
@@ -258,7 +266,7 @@ class Machine:
             for x, y in ((a, b), (b, a)):
                 if isinstance(x, Mono) and isinstance(y, tuple) and len(y) == 2 and y[0] == "mpow":
                     return Mono(x.base, x.exp + y[1])
-        return Opaque(f"({a!r} {type(op).__name__} {b!r})")
+        return Opaque(f"({render(a)} {type(op).__name__} {render(b)})", (type(op).__name__, a, b))
 
     def call(self, e: ast.Call):
         name = ast.unparse(e.func)
@@ -343,7 +351,7 @@ class Machine:
         if short in ("min", "max") and args and all(isinstance(a, (int, float)) for a in args):
             return (min if short == "min" else max)(args)
         parts = [render(a) for a in args] + [f"{k}={render(v)}" for k, v in kwargs.items()]
-        return Opaque(f"{name}({', '.join(parts)})")
+        return Opaque(f"{name}({', '.join(parts)})", ("call", name, list(args), dict(kwargs)))
 
     # -- statements -------------------------------------------------------------------------------------------------------
     def assign(self, t, v):
@@ -360,6 +368,8 @@ class Machine:
             base = self.ev(t.value)
             if isinstance(base, dict):
                 base[self.ev(t.slice)] = v
+            elif isinstance(base, Opaque) and not isinstance(t.slice, ast.Slice):
+                self.stores.append((base.text, self.ev(t.slice), v))      # element store into an array of the analysed program
         elif isinstance(t, ast.Attribute):
             pass            # stores into objects are outside the model
 
@@ -473,3 +483,19 @@ def _load(t):
         if hasattr(x, "ctx"):
             x.ctx = ast.Load()
     return t2
+
+
+def module_constants(tree: ast.Module) -> Dict[str, Any]:
+    """Module-level `NAME = <literal / table of names>` bindings, evaluated in order (names of functions stay opaque symbols)."""
+    m = Machine({}, lambda text: NotImplemented, lambda *a: NotImplemented)
+    out: Dict[str, Any] = {}
+    for st in tree.body:
+        if isinstance(st, ast.Assign) and len(st.targets) == 1 and isinstance(st.targets[0], ast.Name) \
+                and isinstance(st.value, (ast.Dict, ast.Tuple, ast.List, ast.Constant)):
+            try:
+                v = m.ev(st.value)
+            except AnalysisError:
+                continue
+            m.env[st.targets[0].id] = v
+            out[st.targets[0].id] = v
+    return out
